@@ -169,7 +169,12 @@ func H_C08_text() {
 	mode := vparam("mode", 1)
 	x := vnondetBytes(k)
 	for _, c := range x {
-		vassume(vC08Alpha(c))
+		if vparam("alpha", 0) == 1 {
+			// operator characters against comment introducers: longer runs over a small alphabet
+			vassume(c == '*' || c == '/' || c == '+' || c == 'a' || c == ' ' || c == '\n')
+		} else {
+			vassume(vC08Alpha(c))
+		}
 	}
 	doc := vC08Frame(vparam("frame", 0), x)
 	// plain full traversal defines what the document holds (C08 quantifies over valid documents)
